@@ -37,6 +37,9 @@ type job struct {
 	src      string
 	extra    []string // e.g. -fno-pic
 	inputs   []string // content-determining files when src is only a wrapper (cache key)
+	xcheck   bool     // also run nm -u / size -A on the object
+	nmU      string
+	sizeA    string
 	out      string
 	pic      bool
 	err      error
@@ -76,6 +79,11 @@ func runJobs(jobs []*job, par int) {
 				return
 			}
 			j.info, j.err = inspectObject(j.out)
+			if j.err == nil && j.xcheck {
+				// binutils' view, for crossCheck (run here so that it is parallel)
+				j.nmU = binutils("nm", "-u", j.out)
+				j.sizeA = binutils("size", "-A", j.out)
+			}
 			j.duration = time.Since(t0)
 		}(j)
 	}
@@ -117,7 +125,7 @@ func binutils(tool string, args ...string) string {
 // crossCheck compares debug/elf's view with `nm -u` and `size -A`.
 func crossCheck(r *hlib.Run, j *job) {
 	nmU := []string{}
-	for _, l := range strings.Split(binutils("nm", "-u", j.out), "\n") {
+	for _, l := range strings.Split(j.nmU, "\n") {
 		f := strings.Fields(l)
 		if len(f) == 2 && (f[0] == "U" || f[0] == "w") {
 			nmU = append(nmU, f[1])
@@ -128,7 +136,7 @@ func crossCheck(r *hlib.Run, j *job) {
 		r.Fail("harness:elf-vs-nm:"+j.key(), "debug/elf and nm -u disagree: "+strings.Join(nmU, " ")+" vs "+strings.Join(j.info.Undef, " "), j.key())
 	}
 	sz := map[string]string{}
-	for _, l := range strings.Split(binutils("size", "-A", j.out), "\n") {
+	for _, l := range strings.Split(j.sizeA, "\n") {
 		f := strings.Fields(l)
 		if len(f) == 3 && strings.HasPrefix(f[0], ".") {
 			sz[f[0]] = f[1]
@@ -275,7 +283,7 @@ func main() {
 	mods := moduleNames(snapshot)
 	var jobs []*job
 	mk := func(name, cc, opt string, defs []string, extra []string, pic bool) *job {
-		j := &job{name: name, cc: cc, opt: opt, defs: append([]string{"WUFFS_IMPLEMENTATION"}, defs...), src: sb.Snapshot, extra: extra, pic: pic}
+		j := &job{name: name, cc: cc, opt: opt, defs: append([]string{"WUFFS_IMPLEMENTATION"}, defs...), src: sb.Snapshot, extra: extra, pic: pic, xcheck: true}
 		j.out = filepath.Join(work, strings.NewReplacer("/", "_", " ", "").Replace(j.key())+".o")
 		jobs = append(jobs, j)
 		return j
